@@ -515,7 +515,7 @@ PROPS = {
     "C19": {
         "lean_modules": ["AvroProofs.C19"],
         "theorems": ["Avro.C19.first_wins", "Avro.C19.never_changes", "Avro.C19.run_keeps", "Avro.C19.limit_enforced",
-                     "Avro.C19.uniform_limit", "Avro.C19.one_cell_per_setting", "Avro.C19.no_other_cell", "Avro.C19.atomic_ops_only"],
+                     "Avro.C19.uniform_limit", "Avro.C19.one_cell_per_setting", "Avro.C19.no_other_cell", "Avro.C19.atomic_ops_only", "Avro.C19.peek_sees_winner"],
         "harness": c19_runs,
         "projection": "okerr",
         "nontrivial": lambda l: True,
